@@ -143,3 +143,18 @@ def sincos_input(enc, name, mult=1):
     else:
         s, c = enc.ring.v(at["S"]), enc.ring.v(at["C"])
     return enc._multiple(s, c, int(mult * at["L"]))
+
+
+def path_feasible(enc, extra=(), timeout_ms=5000):
+    """False only if the executed path's condition (plus `extra` constraints) is UNSATISFIABLE over the reals: such a path was
+    followed by the double execution through comparisons that are ties in exact arithmetic (typically a flip model sitting exactly on
+    a decision boundary); it is not a path of the real-number semantics and every obligation on it would be vacuous."""
+    from engine.driver.solve import Query, run_z3
+    pc = [c for _, c in enc.path_condition()] + list(extra)
+    if not pc:
+        return True
+    q = Query(enc, "path feasible", pc, [])
+    smt, names = q.smt()
+    smt = smt.replace("(assert (not true)) ; negated goal: path feasible", "").replace("(assert (not true))", "")
+    r, _, _ = run_z3(smt, names, rlimit=0, seed=5, timeout_ms=timeout_ms)
+    return r != "unsat"
